@@ -8,10 +8,13 @@ let qerr_str = function
   | QConnApp c -> "app:" ^ string_of_n c
   | QTimeout -> "timeout"
   | QInternal -> "internal"
+  | QStreamUnknown -> "unknown"
+  | QConnUndefined -> "undefined"
 let rerr_str = function
   | RConnLocal c -> "err:c:" ^ string_of_n c
   | RStream c -> "err:s:" ^ string_of_n c
   | RRemoteTerminate c -> "err:rt:" ^ string_of_n c
+  | RConnRemote QStreamUnknown -> "err:undef"
   | RConnRemote q -> "err:cr:" ^ qerr_str q
 exception Model_panic of n
 let close_code = ref None
@@ -30,7 +33,10 @@ let parse_action a =
   | 'c' -> RArrive (Chunk (bytes_of_hex (rest ())))
   | 'F' -> RArrive Fin
   | 'R' -> RArrive (Abort (QTerminated (n_of_string (rest ()))))
-  | 'X' -> RArrive (Abort (QConnApp (n_of_string (rest ()))))
+  | 'X' -> if a = "XU" then RArrive (Abort QConnUndefined) else RArrive (Abort (QConnApp (n_of_string (rest ()))))
+  | 'T' -> RArrive (Abort QTimeout)
+  | 'I' -> RArrive (Abort QInternal)
+  | 'K' -> RArrive (Abort QStreamUnknown)
   | 'p' -> RCall
   | _ -> failwith "bad action"
 let event_str = function
